@@ -51,11 +51,11 @@ ASSUMPTIONS = [
 RTOL, ATOL, BTOL = 1e-9, 1e-9, 1e-7
 IVP_METHODS = ("DOP853", "RK45", "Radau", "BDF", "LSODA")
 SOLUTIONS = ("exp", "sinpoly", "lorentz")
-COEFFS = ("const", "callable", "mixed", "zerolow")
+COEFFS = ("const", "callable", "mixed", "zerolow", "stable")
 
 
 CASE_CPU_LIMIT = 120.0
-HALF, PM1 = (0.15, 2.0), (-0.6, 0.55)
+HALF, PM1, LONG = (0.15, 2.0), (-0.6, 0.55), (0.15, 90.0)
 # name -> (class name or None, constructor parameters, wrapped in InverseRTransform?, interval in the ORIGINAL variable,
 #          thorough-only?)
 SPEC = {
@@ -78,6 +78,11 @@ SPEC = {
     "inv-exp-b5": ("ExpRTransform", {"rmin": 0.1, "rmax": 9.0, "b": 5.0}, True, HALF, True),
     "inv-lininf-b5": ("LinearInfiniteRTransform", {"rmin": 0.1, "rmax": 7.0, "b": 5.0}, True, HALF, True),
     "inv-identity": ("IdentityRTransform", {}, True, HALF, True),
+    # long intervals: the inverse maps compress them strongly (dx_new/dx down to 1e-5), so the transformed leading
+    # coefficient a_K g'^K becomes tiny although a_K is of order one (seeded change C15-H "regularised" it below 1e-10)
+    "none-long": (None, {}, False, LONG, False),
+    "inv-becke-long": ("BeckeRTransform", {"rmin": 0.0, "R": 1.0}, True, LONG, False),
+    "inv-linearfinite-long": ("LinearFiniteRTransform", {"rmin": 0.0, "rmax": 400.0}, True, LONG, False),
     "none-pm1": (None, {}, False, PM1, False),
     "becke": ("BeckeRTransform", {"rmin": 0.1, "R": 1.2}, False, PM1, False),
     "linearfinite": ("LinearFiniteRTransform", {"rmin": 0.5, "rmax": 4.0}, False, PM1, False),
@@ -141,6 +146,9 @@ def problem(order, cname, sname, x0=0.0):
     elif cname == "callable":
         a = [x / 2 + 1, sp.cos(x) / 2, 1 / (2 + x**2), 1 + x**2 / 10][: order + 1]
         a[order] = [2 + sp.sin(x), 1 + x**2 / 10, 1 + sp.exp(-x) / 2][order - 1]
+    elif cname == "stable":
+        # (D + 1)^order: every homogeneous solution decays, so the problem stays well conditioned over a long interval
+        a = [sp.Float(v) for v in ([1, 1], [1, 2, 1], [1, 3, 3, 1])[order - 1]]
     elif cname == "zerolow":
         # every lower-order coefficient exactly zero, leading coefficient not 1 (values that special-case code paths
         # like "skip vanishing rows" react to; added with seeded change C20-D)
@@ -333,6 +341,11 @@ def jobs_for(ctx):
     for order, cname, sname in itertools.product((1, 2, 3), COEFFS, SOLUTIONS):
         base = (cname, sname) == ("const", "exp")
         for tname in tnames:
+            # the long interval only with the well-conditioned operator (and that operator only there and untransformed)
+            if tname.endswith("-long") != (cname == "stable") and not (cname == "stable" and tname == "none"):
+                continue
+            if cname == "stable" and sname == "lorentz":
+                continue
             # IVP
             for method in IVP_METHODS:
                 if not ctx.thorough and method != "DOP853" and not (base or (tname in ("inv-becke", "becke", "none") and cname == "callable")):
@@ -345,9 +358,12 @@ def jobs_for(ctx):
             if sname == "exp" and cname in ("const", "callable") and (ctx.thorough or tname in ("none", "inv-becke", "inv-knowles-k3", "becke", "handy-m3")):
                 for form in ("int-list", "int-array", "float-array"):
                     out.append((order, cname, "polyint", tname, "ivp", ("DOP853", False, form), ctx.seed))
-            # BVP
+            # BVP (on the long interval only first order with the condition at the lower end: anything else is ill-conditioned
+            # for the operator itself over 90 units, the untransformed solve diverges as well)
             for bc in ("values", "lower-derivative", "upper"):
                 if order == 1 and bc == "lower-derivative":
+                    continue
+                if tname.endswith("-long") and (order > 1 or bc != "values"):
                     continue
                 for guess in ("zeros", "default"):
                     if guess == "default" and not (bc == "values" and (ctx.thorough or base)):
